@@ -31,7 +31,19 @@ EXPECTED_PROBES = ["forged_random_token", "forged_wrong_ip", "forged_wrong_port"
 FORGED = b"FORGED"
 
 
+def gen_template(r):
+    """The application builds one request Message and hands it to Context.request() more than once (a template for
+    non-confirmable polls, an observation that is re-registered with the message it was first made with); the earlier
+    request is still outstanding then, and is later given up by the application."""
+    return {"template": {"n": r.choice([2, 2, 3]), "gap": r.choice([0.0, 0.01, 0.3]), "d": r.choice([0.5, 1.0, 3.0]),
+                         "cancel_first_at": r.choice([0.02, 0.4, 0.9]), "observe": r.chance(0.4), "blockwise": r.chance(0.5),
+                         "late_con_for_first": r.chance(0.6)},
+            "nscripted": 1, "ops": [], "net": {}}
+
+
 def gen(r, tier):
+    if r.chance(0.06):
+        return gen_template(r)
     nscripted = r.choice([1, 1, 2])
     ops = []
     n = r.randint(2, 12)
@@ -84,6 +96,12 @@ def gen(r, tier):
 def corpus():
     base = {"nscripted": 1, "net": {}, "senderr": 0, "stall": False}
     out = []
+    for obs in (False, True):
+        for bw in (False, True):
+            for gap in (0.0, 0.3):
+                for cf in (0.02, 0.9):
+                    out.append({"template": {"n": 2, "gap": gap, "d": 1.0, "cancel_first_at": cf, "observe": obs, "blockwise": bw,
+                                             "late_con_for_first": True}, "nscripted": 1, "ops": [], "net": {}})
     for kind in ("random_token", "wrong_ip", "wrong_port", "late_copy"):
         for mt in ("CON", "NON", "ACK"):
             for beh in ("piggy", "sep_con"):
@@ -162,7 +180,92 @@ class ScriptServer(ScriptedEndpoint):
         self.send(src, msg=ack)
 
 
+def execute_template(sim, scn):
+    from aiocoap import Message, GET, error
+    from aiocoap.numbers.constants import Unreliable
+
+    loop = sim.loop
+    tp = scn["template"]
+    client = loop.run_until_complete(sim.client(common.CLIENT_IP))
+    me = sim.local_addr(client)
+    server = ScriptedEndpoint(sim, common.PEER_IPS[0], 5683)
+    seen = []  # (t, token) of the requests the server got
+
+    def handle(msg, src, data):
+        if msg is None or not (1 <= msg["code"] < 32):
+            return
+        if any(tok == msg["token"] for (_t, tok) in seen):
+            return
+        seen.append((loop.now, msg["token"]))
+        opts = [(rc.OBSERVE, rc.uint_bytes(5 + len(seen)))] if tp["observe"] else []
+        loop.after(tp["d"], lambda: server.send(src, msg={"type": rc.NON, "code": rc.CONTENT, "mid": server.next_mid(), "token": msg["token"],
+                                                         "options": opts, "payload": b"for:" + msg["token"]}))
+    server.handle = handle
+    sim.probe("one_message_object_in_several_requests")
+    m = Message(code=GET, uri="coap://[%s]/poll" % server.addr[0], transport_tuning=Unreliable(), observe=0 if tp["observe"] else None)
+    recs = []
+
+    def start(k):
+        rec = {"k": k, "req": client.request(m, handle_blockwise=tp["blockwise"]), "done": 0, "outcome": None}
+        recs.append(rec)
+
+        def done(f, rec=rec):
+            rec["done"] += 1
+            rec["outcome"] = "cancelled" if f.cancelled() else ("error" if f.exception() is not None else "response")
+            if rec["outcome"] == "response":
+                rec["payload"] = bytes(f.result().payload)
+            sim.log("app", "done", k, rec["outcome"])
+        rec["req"].response.add_done_callback(done)
+        if tp["observe"]:
+            rec["req"].observation.register_callback(lambda msg_: None)
+            rec["req"].observation.register_errback(lambda e: None)
+
+    for k in range(tp["n"]):
+        loop.at(0.1 + k * tp["gap"] + k * 1e-4, start, k)
+
+    def cancel_first():
+        r0 = recs[0]
+        sim.log("app", "cancel", 0)
+        if not r0["req"].response.done():
+            r0["req"].response.cancel()
+        elif tp["observe"] and not r0["req"].observation.cancelled:
+            r0["req"].observation.cancel()
+    loop.at(0.1 + tp["cancel_first_at"], cancel_first)
+    late = {}
+    if tp["late_con_for_first"]:
+        def late_con():
+            if seen:
+                late["mid"] = 0x7777
+                server.send(me, msg={"type": rc.CON, "code": rc.CONTENT, "mid": 0x7777, "token": seen[0][1],
+                                     "options": [(rc.OBSERVE, rc.uint_bytes(99))] if tp["observe"] else [], "payload": b"late"})
+        loop.at(0.1 + tp["d"] + 5.0, late_con)
+    sim.run()
+    sim.nontrivial = True
+    for rec in recs[1:]:
+        ident = {"request": rec["k"], "of": tp["n"], "observe": tp["observe"], "blockwise": tp["blockwise"]}
+        tok = seen[rec["k"]][1] if rec["k"] < len(seen) else None
+        if not rec["done"]:
+            sim.violation("C02/request-never-completed", dict(ident, why="same Message object as an earlier, cancelled request"))
+        elif rec["outcome"] != "response" or rec.get("payload") != b"for:" + (tok or b""):
+            sim.violation("C02/response-delivered-to-wrong-request", dict(ident, outcome=rec["outcome"], payload=repr(rec.get("payload"))))
+        if rec["done"] > 1:
+            sim.violation("C02/request-completed-twice", ident)
+    if late.get("mid") is not None and recs[0]["outcome"] == "cancelled":
+        # (an observation cancelled through ClientObservation.cancel() is known to acknowledge one more notification
+        # before it rejects them: not judged here)
+        # the first request's token is retired: a confirmable response on it is answered with a Reset
+        answers = [e["msg"]["type"] for e in sim.net.wire if e["src"] == me and e["msg"] is not None and e["msg"]["mid"] == late["mid"]
+                   and e["msg"]["type"] in (rc.ACK, rc.RST)]
+        if answers != [rc.RST]:
+            sim.violation("C02/unknown-con-response-not-reset", {"token": "of the cancelled first request", "answers": answers,
+                                                                 "observe": tp["observe"]})
+    for (t, mm, en, es) in sim.loop_exceptions():
+        sim.anomaly("loop-exception:%s" % en, "%s %s" % (mm, es))
+
+
 def execute(sim, scn):
+    if scn.get("template"):
+        return execute_template(sim, scn)
     import asyncio
     import socket
     import aiocoap.resource as resource
